@@ -1,5 +1,7 @@
 import TD.C07.To68
+import TD.C07.Canon68
 import TD.C07.Rp66
+import TD.C07.Rp66b
 import Mathlib.Algebra.Order.Field.Rat
 import Mathlib.Algebra.Order.Field.Power
 import Mathlib.Algebra.Order.Ring.Abs
